@@ -106,6 +106,20 @@ def main(tier):
                   "bytes_per_line": 4, "move_macro": True, "max_passes": 60})
     progs[cid] = (cprog, csrc, 4, True)
     pfiles[cid] = (cfiles, cfsrc)
+    # source lines whose bytes lie in TWO segments (a macro that emits into the current segment and into a `.segment` block,
+    # invoked twice; macro output attributed to the invocation line): each byte is listed from the segment that holds it
+    for k, (bpl2, relocated) in enumerate([(1, False), (8, True), (3, True)]):
+        mid = n + 2 + k
+        mprog = [G.defseg("code", G.num(0x2000, "hex")), G.defseg("data", G.num(0x3000, "hex"), G.num(0x8000, "hex") if relocated else None),
+                 G.macrodef("both", ["v"], [G.insn("lda", "imm", G.ident(["v"])), G.useseg("data", [G.data(1, [G.ident(["v"]), G.binop("+", G.ident(["v"]), G.num(1))])]),
+                                            G.insn("sta", "dir", G.num(0xd020, "hex"))]),
+                 G.useseg("code"), G.macrocall("both", [G.num(1)]), G.insn("nop"), G.macrocall("both", [G.num(7)]), G.insn("rts")]
+        G.number_statements(mprog)
+        msrc = G.render(mprog)
+        cases.append({"id": mid, "files": {"main.asm": msrc}, "pc": 0x2000, "want": ["segments", "symbols", "vice", "srcmap", "listing"],
+                      "bytes_per_line": bpl2, "move_macro": True, "max_passes": 60})
+        progs[mid] = (mprog, msrc, bpl2, True)
+        pfiles[mid] = ({}, {})
     obs, p = V.run_harness("asmdrive", cases, "C11-drive")
     if len(obs) != len(cases):
         raise V.ToolError("asmdrive produced %d of %d observations: %s" % (len(obs), len(cases), p.stderr[-2000:]))
@@ -165,7 +179,7 @@ def main(tier):
     nproc = 0
     nprocimp = 0
     procsel = [r for r in recs if len(r["prog"]) > 2 and r["id"] < 1_000_000]
-    procsel = procsel[:60 if tier == "quick" else 600] + [r for r in recs if r["id"] == n + 1]
+    procsel = procsel[:60 if tier == "quick" else 600] + [r for r in recs if n + 1 <= r["id"] <= n + 4]
     for rec in procsel:
         prog, src, bpl, move = progs[rec["id"]]
         d = os.path.join(root, "p%d" % rec["id"])
